@@ -85,6 +85,16 @@ def _run_history(hist):
                     break
                 asked = {"birth": (float(d[:, 0].min()), float(d[:, 0].max())),
                          "pers": (float((d[:, 1] - d[:, 0]).min()), float((d[:, 1] - d[:, 0]).max()))}
+            elif op == "fit_many":
+                ds = [np.array(x, dtype=float) for x in h[1]]
+                try:
+                    pi.fit(ds, skew=True)
+                except Exception as ex:
+                    out.append((step, op + ":exception", "fit raised %r" % (ex,)))
+                    break
+                allp = np.vstack(ds)
+                asked = {"birth": (float(allp[:, 0].min()), float(allp[:, 0].max())),
+                         "pers": (float((allp[:, 1] - allp[:, 0]).min()), float((allp[:, 1] - allp[:, 0]).max()))}
             for kind, text in _wf_violations(pi, asked, op):
                 out.append((step, op + ":" + kind, text))
             if pi.resolution[0] * pi.resolution[1] <= 4000:
@@ -104,7 +114,7 @@ def _rand_history(rng):
         return (lo, lo + ext)
     hist = [("init", rng_range(), rng_range(), rng.choice(nice + [rng.uniform(0.01, 1.5)]))]
     for _ in range(rng.randint(0, 4)):
-        op = rng.choice(["birth_range", "pers_range", "pixel_size", "fit"])
+        op = rng.choice(["birth_range", "pers_range", "pixel_size", "fit", "fit_many"])
         if op == "pixel_size":
             hist.append((op, rng.choice(nice + [rng.uniform(0.01, 1.5)])))
         elif op == "fit":
@@ -114,6 +124,18 @@ def _rand_history(rng):
                 b = rng.uniform(-3, 3)
                 pts.append([b, b + rng.uniform(0.1, 4)])
             hist.append((op, pts))
+        elif op == "fit_many":
+            # a collection of diagrams in arbitrary order: later ones may extend the extent at either end, at both, or not at all
+            ds = []
+            for _d in range(rng.randint(2, 4)):
+                c, w = rng.uniform(-2, 2), rng.choice([0.2, 1.0, 3.0])
+                pts = []
+                for _i in range(rng.randint(1, 3)):
+                    b = c + rng.uniform(-w, w)
+                    pts.append([b, b + rng.uniform(0.1, 0.1 + 2 * w)])
+                ds.append(pts)
+            if len({p[0] for d in ds for p in d}) > 1 and len({round(p[1] - p[0], 12) for d in ds for p in d}) > 1:
+                hist.append((op, ds))
         else:
             hist.append((op, rng_range()))
     return hist
@@ -127,6 +149,8 @@ FIXED_HISTORIES = [
     [("init", (0, 1), (0, 1), 0.2), ("pers_range", (0.0, 0.7)), ("pixel_size", 0.1)],
     [("init", (0, 1), (0, 1), 1.0), ("pixel_size", 1 / 3)],
     [("init", (0, 1), (0, 2), 1), ("fit", [[1, 2], [4, 8], [-1, 5.25]]), ("pixel_size", 0.7), ("birth_range", (0.0, 2.1))],
+    [("init", (0, 1), (0, 1), 0.5), ("fit_many", [[[0.0, 1.0], [1.0, 3.0]], [[-1.0, 0.5], [4.0, 9.0]]])],
+    [("init", (0, 1), (0, 1), 0.5), ("fit_many", [[[-1.0, 0.5], [4.0, 9.0]], [[0.0, 1.0], [1.0, 3.0]]])],
 ]
 
 
